@@ -64,6 +64,7 @@ func (rows *leveldbRows) Clear() {
 	if err := rows.db.Close(); err != nil {
 		panic(err)
 	}
+	verifYield("disk.clear.closed")
 	rows.db = rows.newFunc(true)
 }
 
